@@ -52,28 +52,34 @@ pub fn chr(name: &str) -> &'static str {
     }
 }
 
+/// Every context but the first two puts a complete definition in front of the construct (a damaged construct that is the
+/// FIRST item of a file only mis-shapes the tree, the same construct after another item can make the tree builder fail);
+/// the `*_first` contexts keep the construct first.
 pub const CONTEXTS: &[(&str, &str, &str)] = &[
     ("top", "", ""),
     ("top_between", "fn e() { 1 }\n", "\nfn g() { 1 }\n"),
-    ("fn_body", "fn f(x) { ", " }\nfn g() { 1 }\n"),
-    ("let_rhs", "fn f(x) { let y = ", "\n x }\nfn g() { 1 }\n"),
-    ("case_clause", "fn f(x) { case x { ", " -> 1 } }\nfn g() { 1 }\n"),
-    ("case_body", "fn f(x) { case x { A -> ", " } }\nfn g() { 1 }\n"),
-    ("pattern_args", "fn f(x) { case x { A(", ") -> 1 } }\n"),
-    ("type_body", "type T { A ", " }\nfn g() { 1 }\n"),
-    ("variant_fields", "type T { A(", ") }\nfn g() { 1 }\n"),
-    ("param_list", "fn f(", ") { 1 }\nfn g() { 1 }\n"),
-    ("ret_type", "fn f() -> ", " { 1 }\n"),
-    ("import", "import a/b.{", "}\nfn g() { 1 }\n"),
-    ("import_path", "import ", "\nfn g() { 1 }\n"),
-    ("call_args", "fn f() { g(", ") }\n"),
-    ("list", "fn f() { [", "] }\n"),
-    ("const", "const c = ", "\nfn g() { 1 }\n"),
-    ("alias", "type A = ", "\nfn g() { 1 }\n"),
-    ("attr", "@external(", ")\nfn g() -> Int\n"),
-    ("use", "fn f() { use ", " <- g(1)\n 1 }\n"),
-    ("eof_in_fn", "fn f(x) { let y = ", ""),
-    ("eof_in_type", "pub type T(a) { A(x: ", ""),
+    ("fn_body", "fn e() { 1 }\nfn f(x) { ", " }\nfn g() { 1 }\n"),
+    ("let_rhs", "fn e() { 1 }\nfn f(x) { let y = ", "\n x }\nfn g() { 1 }\n"),
+    ("case_clause", "fn e() { 1 }\nfn f(x) { case x { ", " -> 1 } }\nfn g() { 1 }\n"),
+    ("case_body", "fn e() { 1 }\nfn f(x) { case x { A -> ", " } }\nfn g() { 1 }\n"),
+    ("pattern_args", "fn e() { 1 }\nfn f(x) { case x { A(", ") -> 1 } }\n"),
+    ("type_body", "fn e() { 1 }\ntype T { A ", " }\nfn g() { 1 }\n"),
+    ("variant_fields", "fn e() { 1 }\ntype T { A(", ") }\nfn g() { 1 }\n"),
+    ("param_list", "fn e() { 1 }\nfn f(", ") { 1 }\nfn g() { 1 }\n"),
+    ("ret_type", "fn e() { 1 }\nfn f() -> ", " { 1 }\n"),
+    ("import", "import c\nimport a/b.{", "}\nfn g() { 1 }\n"),
+    ("import_path", "import c\nimport ", "\nfn g() { 1 }\n"),
+    ("call_args", "fn e() { 1 }\nfn f() { g(", ") }\n"),
+    ("list", "fn e() { 1 }\nfn f() { [", "] }\n"),
+    ("const", "fn e() { 1 }\nconst c = ", "\nfn g() { 1 }\n"),
+    ("alias", "fn e() { 1 }\ntype A = ", "\nfn g() { 1 }\n"),
+    ("attr", "fn e() { 1 }\n@external(", ")\nfn g() -> Int\n"),
+    ("use", "fn e() { 1 }\nfn f() { use ", " <- g(1)\n 1 }\n"),
+    ("eof_in_fn", "fn e() { 1 }\nfn f(x) { let y = ", ""),
+    ("eof_in_type", "fn e() { 1 }\npub type T(a) { A(x: ", ""),
+    ("import_first", "import a/b.{", "}\nfn g() { 1 }\n"),
+    ("fn_first", "fn f(x) { ", " }\nfn g() { 1 }\n"),
+    ("type_first", "type T { A(", ") }\nfn g() { 1 }\n"),
 ];
 
 /// Render a token-kind sequence. `variant` 0 = canonical spellings joined by single spaces.
